@@ -1,10 +1,61 @@
-(* C01 - property theorems only (grows as the refinement proofs land). *)
-From Coq Require Import String List.
-Require Import PV.Num PV.Sort PV.Spec PV.Impl PV.Ref.
+(* C01 - property theorems only. *)
+From Coq Require Import String List Ring.
+Require Import PV.Num PV.Sort PV.Spec PV.Impl PV.Ref PV.InterpQ PV.RefineRates PV.RefineTop PV.EngineRun PV.RefineWitness.
 Import ListNotations.
 
+(* For EVERY accepted specification (any channels/samples/bins, any subset of the seven modifier types, any sharing of
+   names), every parameter vector, any interpolation functions and any commutative ring of numbers: the expected data
+   of the mega-channel implementation model is the HistFactory template -- per channel in sorted order, per bin: the sum
+   over that channel's samples of (product of the sample's own multiplicative factors) x (nominal + sum of its own additive
+   shifts), each addressed by the NAME of its parameter, per-sample then per-bin clip.  Premises: the schema's data shapes,
+   the per-sample clip not positive (see the refuted statement below), and the access-field layout premise that the
+   check evaluates in Coq for every generated model (deriving it from build = Ok is future work: hence _partial). *)
+Theorem C01_expected_data_refines_partial : forall N,
+  ring_theory (n0 N) (n1 N) (nadd N) (nmul N) (nsub N) (nopp N) eq ->
+  forall interp_add interp_mul (sp : spec N) st md pars,
+  build N sp = Ok md -> shape_ok N sp -> clip_guard N st -> layout_okb N sp md = true ->
+  expected_actualdata N interp_add interp_mul sp st md pars =
+  ref_expected N interp_add interp_mul (normsys_code N st) (histosys_code N st) (clip_sample N st) (clip_bin N st) sp
+               (theta N md (parf N pars)).
+Proof. exact expected_refines_accepted. Qed.
+(* the executed instance (exact rationals) and the analytic instance (reals) *)
+Theorem C01_expected_data_refines_Qc : forall ia im (sp : spec QcNum) st md pars,
+  build QcNum sp = Ok md -> shape_ok QcNum sp -> clip_guard QcNum st -> layout_okb QcNum sp md = true ->
+  expected_actualdata QcNum ia im sp st md pars =
+  ref_expected QcNum ia im (normsys_code QcNum st) (histosys_code QcNum st) (clip_sample QcNum st) (clip_bin QcNum st) sp (theta QcNum md (parf QcNum pars)).
+Proof. exact expected_refines_Qc. Qed.
+Theorem C01_expected_data_refines_R : forall ia im (sp : spec RNum) st md pars,
+  build RNum sp = Ok md -> shape_ok RNum sp -> clip_guard RNum st -> layout_okb RNum sp md = true ->
+  expected_actualdata RNum ia im sp st md pars =
+  ref_expected RNum ia im (normsys_code RNum st) (histosys_code RNum st) (clip_sample RNum st) (clip_bin RNum st) sp (theta RNum md (parf RNum pars)).
+Proof. exact expected_refines_R. Qed.
+(* per cell, for any channel of the spec and any bin: the rate formula *)
+Theorem C01_rate_refines : forall N, ring_theory (n0 N) (n1 N) (nadd N) (nmul N) (nsub N) (nopp N) eq ->
+  forall interp_add interp_mul (sp : spec N) st md par,
+  NoDup (map c_name (channels sp)) ->
+  (forall c, In c (channels sp) -> NoDup (map s_name (c_samples c))) ->
+  (forall c s, In c (channels sp) -> In s (c_samples c) -> NoDup (map mkey (s_mods s))) ->
+  shape_ok N sp -> clip_guard N st -> layout_ok N sp md ->
+  forall c, In c (channels sp) -> forall b, b < chan_nbins N c ->
+  rate N interp_add interp_mul sp (cfg_channels N sp) (cfg_samples N sp) (cfg_modifiers N sp) st md par (c_name c) b =
+  ref_rate N interp_add interp_mul (normsys_code N st) (histosys_code N st) (clip_sample N st) (clip_bin N st) sp (theta N md par) c b.
+Proof. exact rate_refines. Qed.
+(* the unguarded statement is false: positive per-sample clip and a sample absent from a channel *)
+Theorem C01_clip_absent_sample_refuted :
+  exists md, build QcNum clip_witness_spec = Ok md /\
+    expected_actualdata QcNum q_interp_add (interp_mul_q []) clip_witness_spec clip_witness_st md clip_witness_pars
+    <> ref_expected QcNum q_interp_add (interp_mul_q []) (normsys_code QcNum clip_witness_st) (histosys_code QcNum clip_witness_st)
+                    (clip_sample QcNum clip_witness_st) (clip_bin QcNum clip_witness_st) clip_witness_spec
+                    (theta QcNum md (parf QcNum clip_witness_pars)).
+Proof. exact clip_absent_sample_refuted. Qed.
 (* sorted(set(.)) is insensitive to the listing order of its input *)
 Theorem C01_sorted_channels_listing_invariant : forall (l l' : list string),
   (forall x, In x l <-> In x l') -> sort_uniq l = sort_uniq l'.
 Proof. exact sort_uniq_ext. Qed.
+
+Print Assumptions C01_expected_data_refines_partial.
+Print Assumptions C01_expected_data_refines_Qc.
+Print Assumptions C01_expected_data_refines_R.
+Print Assumptions C01_rate_refines.
+Print Assumptions C01_clip_absent_sample_refuted.
 Print Assumptions C01_sorted_channels_listing_invariant.
